@@ -7,8 +7,9 @@ RULE = ('every source page 00-FF (the statement: 00-F1) with a source oracle byt
         'both sides, constant and changing every cycle, from random initial OAM contents: FF46 read-back, OAM '
         'read through Read after every one of 162+ cycles (run-length encoded), full OAM dump and engine state '
         'at the end; restarts of a running transfer at random cycles (1-3 restarts, any cycle 0-170); DMA '
-        'interleaved with PPU cycles (object scan during a transfer); a case is non-trivial when its final dump '
-        'differs from the initial contents; distinct = distinct (page, oracle, restart pattern)')
+        'interleaved with PPU cycles (object scan during a transfer); random CPU-side access sequences on the '
+        'corruption bookkeeping (model tie for C17); a case is non-trivial when its dumps differ, or an access '
+        'was pending inside the mode-2 window, or it ends in a panic; distinct = distinct case scripts')
 LEVEL_NOTE = ('Theorems C16_copy/C16_blocked/C16_restart/C16_readable_after hold for every page, every source '
               'oracle (changing every cycle), every initial OAM state and every restart point; oam.go is tied to '
               'the model by the correspondence of this run and compared with the statement-level expectation '
@@ -107,7 +108,12 @@ def nontrivial(cid, lines, impl):
     if not impl:
         return None
     dumps = [l for l in impl if l.startswith('oam ')]
-    return cid if len(set(dumps)) > 1 else None
+    if len(set(dumps)) > 1:
+        return cid
+    # corruption-model cases: an access was pending inside the window, or the case ended in a panic
+    if any((' r=1' in l or ' w=1' in l or l.startswith('PANIC')) for l in impl):
+        return cid
+    return None
 
 
 def matches_known(k, case, impl, model):
